@@ -1,4 +1,4 @@
-from vlib import Obl
+from vlib import Obl, PORTFOLIO
 
 TITLE = 'Message queue is a faithful bounded FIFO that never leaves its buffer'
 LEVEL_TEXT = ('bounded symbolic verification of the real msg_ring_buffer.c: all operation sequences of length K from init and one '
@@ -25,7 +25,7 @@ def obligations(tier):
         lad = [('K8_cap16-64', ['K=8', 'CAP_MIN=16', 'CAP_MAX=64'], None, None), ('K6_cap16-64', ['K=6', 'CAP_MIN=16', 'CAP_MAX=64'], None, None),
                ('K5_cap16-40', ['K=5', 'CAP_MIN=16', 'CAP_MAX=40'], None, None)]
         to = 1500
-    o.append(Obl('O1_histories', 'c08_hist.c', units=['msg_ring_buffer.c'], unwind=10, ladder=lad, timeout=to, backend=[None, 'cadical', 'kissat'],
+    o.append(Obl('O1_histories', 'c08_hist.c', units=['msg_ring_buffer.c'], unwind=10, ladder=lad, timeout=to, backend=PORTFOLIO,
                  desc='all K-step alloc/peek/pop histories from jls_mrb_init against a shadow FIFO',
                  bound='capacity and K per rung label; sizes 0..cap+8',
                  assumes=['capacity within [CAP_MIN,CAP_MAX]', 'op in {alloc,peek,pop}', 'size <= CAP_MAX+8']))
@@ -34,7 +34,7 @@ def obligations(tier):
     else:
         lad2 = [('M5_cap16-96', ['MAXM=5', 'CAP_MIN=16', 'CAP_MAX=96'], None, None), ('M4_cap16-64', ['MAXM=4', 'CAP_MIN=16', 'CAP_MAX=64'], None, None)]
     o.append(Obl('O2_inductive_step', 'c08_step.c', units=['msg_ring_buffer.c'], unwind=8, ladder=lad2, timeout=to,
-                 backend=[None, 'cadical', 'kissat'],
+                 backend=PORTFOLIO,
                  desc='one alloc/peek/pop from an arbitrary state satisfying the layout invariant Inv_mrb; postconditions + Inv_mrb re-established',
                  bound='capacity range and max live messages per rung label',
                  assumes=['pre-state generated from Inv_mrb (see harness header)', 'size <= CAP_MAX+8']))
